@@ -257,6 +257,20 @@ def find_item(t, m, selector, dm=None):
         ordinal = int(mo.group(1))
         selector = selector[:mo.start()]
     kind = selector.split(':', 1)[0]
+    if kind == 'slice':
+        # slice:<inner selector>@@<start regex>@@<end regex>  -> the statements from the line where START matches to the
+        # end of the line where END matches (verbatim consecutive statements of that item)
+        inner, rs_, re_ = selector[len('slice:'):].split('@@', 2)
+        s0, e0 = find_item(t, m, inner, dm)
+        a = [mm for mm in re.compile(rs_).finditer(t, s0, e0) if m[mm.start()]]
+        if len(a) != 1:
+            raise LookupError('%s: %d start matches' % (selector, len(a)))
+        b = [mm for mm in re.compile(re_).finditer(t, a[0].end(), e0) if m[mm.start()]]
+        if len(b) < 1:
+            raise LookupError('%s: no end match' % selector)
+        st = t.rfind('\n', 0, a[0].start()) + 1
+        en = t.find('\n', b[0].end())
+        return st, (en if en >= 0 else e0)
     if kind == 'arm':
         # arm:<inner selector>@@<regex ending in =>>  -> the body expression of that match arm
         inner, rx = selector[len('arm:'):].split('@@', 1)
